@@ -353,6 +353,59 @@ fn aligned_cases(ctx: &Ctx) -> Vec<AlignedCase> {
     cases
 }
 
+/// Commitment hashes whose SampleInBall run is extreme (corpus/sample_in_ball, found by an offline search that
+/// depends only on SHAKE256 and tau): longest run of consecutive rejections / most rejections in total.
+#[derive(Clone, Debug, Serialize, Deserialize)]
+pub struct SibCase {
+    pub set: u32,
+    pub c_tilde: String,
+    pub max_consecutive_rejections: u32,
+    pub total_rejections: u32,
+}
+
+pub fn load_sib_corpus(root: &str) -> Vec<SibCase> {
+    let dir = format!("{root}/corpus/sample_in_ball");
+    let mut out = Vec::new();
+    if let Ok(rd) = std::fs::read_dir(&dir) {
+        let mut names: Vec<_> = rd.filter_map(Result::ok).map(|e| e.path()).filter(|p| p.extension().is_some_and(|e| e == "json")).collect();
+        names.sort();
+        for n in names {
+            let v: Vec<SibCase> = serde_json::from_str(&std::fs::read_to_string(&n).expect("corpus file")).expect("corpus json");
+            out.extend(v);
+        }
+    }
+    out
+}
+
+pub fn check_sib(c: &SibCase, st: &mut Stats) -> CheckResult {
+    let p = rf::params(c.set);
+    let libr = lib(p.id);
+    let ct = hex::decode(&c.c_tilde).expect("c_tilde hex");
+    // signature = c~ || zeros: decodable (z = gamma1 everywhere, no hints); SampleInBall runs before any rejection
+    let mut sig = vec![0u8; p.sig_len];
+    sig[..ct.len()].copy_from_slice(&ct);
+    st.class(&format!("set{}:max_run={}", p.id, c.max_consecutive_rejections));
+    st.maximum(&format!("max_consecutive_rejections_set{}", p.id), i64::from(c.max_consecutive_rejections));
+    st.maximum(&format!("max_total_rejections_set{}", p.id), i64::from(c.total_rejections));
+    st.nontrivial(&(c.set, &c.c_tilde));
+    st.sample(&format!("set{}", p.id), || serde_json::to_value(c).expect("ser"));
+    // the challenge itself through the hook, against the reference
+    let ch = g("sample_in_ball", || fips204::verif_hooks::sample_in_ball::<false>(p.tau as i32, &ct))?;
+    st.eval();
+    if crate::libapi::to_i64(&ch) != rf::sample_in_ball(&p, &ct) {
+        fail!(format!("sample_in_ball_differs:set{}", p.id), "set {}: sample_in_ball differs from the reference on a c~ with {} consecutive rejections", p.id, c.max_consecutive_rejections);
+    }
+    for (pk, mode) in [(sigs::t1_zero_pk(&p, &[3u8; 32]), Mode::Pure), (vec![0xA7u8; p.pk_len], Mode::Sha512)] {
+        let rv = rf::verify(&p, &pk, b"extreme challenge", &sig, &[], mode);
+        let lv = g_verify_bytes(libr, &pk, b"extreme challenge", &sig, &[], mode)?;
+        st.eval();
+        if lv != rv.accepted() {
+            fail!(format!("sib_verdict_differs:set{}", p.id), "set {}: verify = {lv}, FIPS 204 Verify = {} on a signature whose c~ has an extreme SampleInBall run", p.id, rv.accepted());
+        }
+    }
+    Ok(())
+}
+
 /// Forgeries (t1 = 0) whose response vector is the maximal-forward-NTT-growth construction.
 #[derive(Clone, Debug, Serialize, Deserialize)]
 pub struct GrowthSig {
@@ -403,12 +456,15 @@ pub fn run(ctx: &Ctx, rep: &mut Report) {
         }
     }
     run_list(rep, "max_growth_z", &gs, check_growth_sig);
+    let sib = load_sib_corpus(&ctx.root);
+    run_list(rep, "sample_in_ball_extremes", &sib, check_sib);
 }
 
 pub fn replay(_ctx: &Ctx, sub: &str, case: &Value) -> Option<CheckResult> {
     match sub {
         "generated" => Some(check(&from_case::<Case>(case), &mut Stats::default())),
         "aligned" => Some(check_aligned(&from_case::<AlignedCase>(case), &mut Stats::default())),
+        "sample_in_ball_extremes" => Some(check_sib(&from_case::<SibCase>(case), &mut Stats::default())),
         "max_growth_z" => Some(check_growth_sig(&from_case::<GrowthSig>(case), &mut Stats::default())),
         _ => None,
     }
